@@ -226,8 +226,6 @@ MapCoefM(m, v) ==
 \* the meaning of a mapper on a polynomial: every coefficient goes through the mapper once,
 \* exponents and the order of the terms stay
 MapData(m, sd) == [i \in 1..Len(sd) |-> Ent(sd[i].e, MapCoefM(m, sd[i].c))]
-\* does the mapper rewrite anything of (base, data) at all ?
-MapTouches(m, sd) == m.mbase # "x" \/ \E i \in 1..Len(sd) : MapCoefM(m, sd[i].c) # sd[i].c
 \* A-layer, IdentityMapper.map_polynomial as the code has it: base and every coefficient are
 \* mapped, the data is a tuple; when the base and every coefficient came back as the identical
 \* object the argument itself is returned, otherwise a new polynomial with the mapped parts.
